@@ -194,6 +194,51 @@ def h_writereg(reg, D, uni, cached):
     return h
 
 
+def h_save(reg, D, uni, cached):
+    def h(c):
+        dumped = []
+
+        class FakeFile:
+            def __enter__(self):
+                return self
+
+            def __exit__(self, *a):
+                return False
+
+            def close(self):
+                pass
+
+        class Pk:
+            @staticmethod
+            def dump(obj, f, protocol=None):
+                # what pickle would store: the object's state at this moment
+                dumped.append((obj, {d: S.copy() for d, S in obj.pixeldict.items()}, obj.maxdepth))
+        a = C08.mk(reg, 'a', D, uni, cached)
+        ea = C08.alpha(a, uni)
+        reg.open = lambda *x, **k: FakeFile()
+        reg.cPickle = Pk
+        try:
+            a.save('/nonexistent/x.mim')
+        finally:
+            del reg.open
+            import _pickle
+            reg.cPickle = _pickle
+        tag = 'save[D=%d,cache=%d]' % (D, cached)
+        c.oblige(tag + ':the region itself is pickled once', z3.BoolVal(len(dumped) == 1 and dumped[0][0] is a and dumped[0][2] == D))
+        if dumped:
+            snap = reg.Region.__new__(reg.Region)
+            snap.maxdepth = D
+            snap.pixeldict = dumped[0][1]
+            es = C08.alpha(snap, uni)
+            c.oblige(tag + ':the pickled state covers exactly the region', z3.And([es[u] == ea[u] for u in ea]))
+        na = C08.alpha(a, uni)
+        c.oblige(tag + ':saving leaves the region unchanged', z3.And([na[u] == ea[u] for u in ea]))
+        dm = a.get_demoted()
+        c.oblige(tag + ':queries after saving still answer the region', z3.And([dm.bits.get(u, FALSE) == ea[u] for u in ea]))
+        return tag
+    return h
+
+
 # ------------------------------------------------------------------------------------------------
 def oracle_export(levels, D, query):
     """property-level oracle on the real code: write MOC FITS / reg / mim for a concrete region and read them back"""
@@ -300,6 +345,15 @@ def run(rep):
             st, res = explore(h_writereg(reg, D, uni, cached), workers=1, wall_s=120)
             rep.stats(st)
             handle(rep, res, dict(k='K-write_reg', D=D, cached=cached))
+    rep.end_kernel()
+    rep.kernel('K-save', functions=[F + ':Region.save'], bounds='depth D in %s, symbolic region, empty-cache and cached states' % depths[:3],
+               stubs=['open -> in-memory file', 'pickle.dump -> snapshot of the object state at the time of the call'], outside=['pickle itself (library; real in the replay oracle)'])
+    for D in depths[:3]:
+        uni = C08.universe(D)
+        for cached in (False, True):
+            st, res = explore(h_save(reg, D, uni, cached), workers=1, wall_s=120)
+            rep.stats(st)
+            handle(rep, res, dict(k='K-save', D=D, cached=cached))
     rep.end_kernel()
     rep.kernel('K-replay-oracle', functions=[F + ':Region.write_fits', F + ':Region.write_reg', F + ':Region.save', F + ':Region.load'],
                bounds='concrete regions (empty, single pixel, multi-level, full base pixel, depth 1..5) through real astropy/healpy/pickle, before and after a query')
